@@ -2,11 +2,11 @@ META = {
     "level": "proof",
     "design_ref": "5/C13",
     "technique": "contracts on the real las_items.py functions (data-structure invariant WF over a heap model), VCs from the ast, z3/cvc5; bounded op-sequence enumeration as CPython cross-check and for the file round trip",
-    "level_text": "Proof (all inputs, all iterations) that HeaderItem.__init__, assign_duplicate_suffixes, append and insert of the real SectionItems "
+    "level_text": "Proof (all inputs, all iterations) that HeaderItem.__init__, assign_duplicate_suffixes, append, insert, set_item, __setitem__ and __setattr__ (attribute assignment of an item) of the real SectionItems "
                   "preserve the invariant 'distinct objects, session = useful or useful:<k>, session names pairwise distinct under the section's comparison', "
                   "number the group of an inserted name :1..:n in section order, leave other items' names alone and never assign original_mnemonic - "
                   "under the precondition NoClash (no mnemonic ends in ':<digits>'; its negation is a recorded known finding). "
-                  "delete/replace/lookup agreement and the write->read round trip are covered by the exhaustive bounded run (sequences <= 3/4 operations over 6 names, "
+                  "The writer's header loops print the ORIGINAL mnemonic at the start of every line (full line layout). delete/lookup agreement and the write->read round trip are covered by the exhaustive bounded run (sequences <= 3/4 operations - append, insert, replace, attribute assignment, delete - over 6 names, "
                   "name multisets <= 2/3 per section x 3 case modes x 2 versions), labelled bounded.",
     "level_note": "Assumes T-enc (the encoder's model of Python: lists, attribute dispatch by declared type, no monkey patching), T-str axioms on strip/upper/'%d' "
                   "(suf injective, upper distributes over suf; validated natively), new item not already in the section. Parsing of the re-read file (regex) is bounded only.",
